@@ -1,5 +1,5 @@
 (* C07 - format conversion.  Model: Model/Convert.v (to_zerv.rs x2, render pipeline) + Model/Render.v. *)
-From ZV Require Import Str Zerv Render Convert ConvertProofs SemVer Pep440 Pep440Nf PepRoundTrip SemVerRoundTrip OutputGrammar RegexSrc PepParseNf PepSemverRound PepOutNf.
+From ZV Require Import Str Zerv Render Convert ConvertProofs SemVer Pep440 Pep440Nf PepRoundTrip SemVerRoundTrip OutputGrammar RegexSrc PepParseNf PepSemverRound PepOutNf Findings.
 From RelationAlgebra Require regex.
 
 (* SemVer -> Zerv always succeeds: the schema pushes of the PreReleaseProcessor never violate the placement rules,
@@ -110,6 +110,12 @@ Example c07_ex_roundtrip :
   render_cmd FSemver FPep440 [] [49;46;50;46;51;45;101;112;111;99;104;46;50;46;114;99;46;49;46;112;111;115;116;46;52;43;97;98]%N
   = OOk [50;33;49;46;50;46;51;114;99;49;46;112;111;115;116;52;43;97;98]%N.   (* 1.2.3-epoch.2.rc.1.post.4+ab -> 2!1.2.3rc1.post4+ab *)
 Proof. vm_compute. reflexivity. Qed.
+
+(* KNOWN FINDING of this property, as the model exhibits it (the check prints KNOWN-FINDING for the class; see known_findings.json) *)
+Example c07_finding_c07_oversize_to_pep440 :
+render_cmd FSemver FPep440 [] [49;46;50;46;51;45;97;108;112;104;97;46;53;48;48;48;48;48;48;48;48;48]%N = OOk [49;46;50;46;51;97;48]%N /\
+  render_cmd FSemver FPep440 [] [53;48;48;48;48;48;48;48;48;48;46;49;46;50]%N = OOk [49;46;50;43;53;48;48;48;48;48;48;48;48;48]%N.
+Proof. exact finding_c07_oversize_to_pep440. Qed.
 
 Print Assumptions c07_semver_to_zerv_total.
 Print Assumptions c07_parse_version_semver_no_panic.
